@@ -335,3 +335,48 @@ func (v *VerifC17) AddSecret(s *api_v1.Secret) { v.lbc.secretStore.AddOrUpdateSe
 // VerifC17AnnotationNames lists the Ingress annotations the validator knows (the keys of
 // annotationValidations, sorted), so that the harness can put adversarial values on each.
 func VerifC17AnnotationNames() []string { return append([]string(nil), annotationNames...) }
+
+// VerifC17FollowUps names the event-driven entry points that re-walk the stored objects
+// after they were accepted and generated.
+var VerifC17FollowUps = []string{
+	"UpdateEndpoints", "UpdateEndpointsMergeableIngress", "UpdateEndpointsForVirtualServers", "UpdateEndpointsForTransportServers",
+	"AddOrUpdateResources", "updateAllConfigs", "FindResourcesFor*",
+}
+
+// FollowUp runs one of them on everything the Configuration currently holds (no recover here).
+func (v *VerifC17) FollowUp(name string) error {
+	lbc := v.lbc
+	ex := func() configs.ExtendedResources { return lbc.createExtendedResources(lbc.configuration.GetResources()) }
+	switch name {
+	case "UpdateEndpoints": // syncEndpointSlices; with NGINX Plus this goes through updatePlusEndpoints
+		return lbc.configurator.UpdateEndpoints(ex().IngressExes)
+	case "UpdateEndpointsMergeableIngress":
+		return lbc.configurator.UpdateEndpointsMergeableIngress(ex().MergeableIngresses)
+	case "UpdateEndpointsForVirtualServers": // with NGINX Plus: createUpstreamsForPlus + the Plus API
+		return lbc.configurator.UpdateEndpointsForVirtualServers(ex().VirtualServerExes)
+	case "UpdateEndpointsForTransportServers":
+		return lbc.configurator.UpdateEndpointsForTransportServers(ex().TransportServerExes)
+	case "AddOrUpdateResources": // syncService, syncSecret
+		_, err := lbc.configurator.AddOrUpdateResources(ex(), true)
+		return err
+	case "updateAllConfigs": // a ConfigMap update regenerates everything (Configurator.UpdateConfig)
+		lbc.updateAllConfigs()
+	case "FindResourcesFor*": // the reference checkers run on every Service / EndpointSlice / Secret / Policy / App Protect event
+		c := lbc.configuration
+		for _, n := range []string{"svc-a", "svc-b", "svc-d", "svc-ext", "missing"} {
+			c.FindResourcesForService("default", n)
+			c.FindResourcesForEndpoints("default", n)
+		}
+		for _, n := range []string{"tls-secret", "ca-secret", "jwk-secret", "htpasswd-secret", "oidc-secret", "apikey-secret", "missing"} {
+			c.FindResourcesForSecret("default", n)
+		}
+		for _, n := range []string{"z-pol", "missing"} {
+			c.FindResourcesForPolicy("default", n)
+		}
+		c.FindResourcesForAppProtectPolicyAnnotation("default", "dataguard")
+		c.FindResourcesForAppProtectLogConfAnnotation("default", "logconf")
+		c.FindResourcesForAppProtectDosProtected("default", "dos")
+		c.FindIngressesWithRatelimitScaling("default")
+	}
+	return nil
+}
